@@ -228,12 +228,19 @@ func dumpGoroutines() []gInfo {
 
 const storePkgMarker = "onos-config/pkg/store/"
 
-// Goroutine ids grow monotonically. Store goroutines that an earlier case of
-// this process left behind (a failing case, the demonstration of a listed
-// finding, stores that cannot be closed) belong to stores that no longer exist
-// and must not be read as a symptom of the current case: every case notes the
-// id of a goroutine started at its beginning and only looks at younger ones.
-var caseBaseline atomic.Int64
+// Store goroutines that an earlier case of this process left parked (a
+// failing case, the demonstration of a listed finding, a v3 transaction store
+// whose watches cannot be cancelled) belong to stores that no longer exist and
+// must not be read as a symptom of the current case. Two filters: a case notes
+// the id of a goroutine started at its beginning and only looks at younger
+// ones (ids are handed out in per-P batches, so this is almost, not strictly,
+// creation order), and cases known to leave parked goroutines behind register
+// them explicitly when they end.
+var (
+	caseBaseline atomic.Int64
+	leftMu       sync.Mutex
+	leftBehind   = map[string]bool{}
+)
 
 func markCaseStart() {
 	ch := make(chan int64, 1)
@@ -247,7 +254,25 @@ func markCaseStart() {
 	caseBaseline.Store(<-ch)
 }
 
+// forgetParked registers every store goroutine currently in a channel send as left behind.
+func forgetParked() {
+	gs := dumpGoroutines()
+	leftMu.Lock()
+	defer leftMu.Unlock()
+	for _, g := range gs {
+		if strings.HasPrefix(g.state, "chan send") && strings.Contains(g.stack, storePkgMarker) {
+			leftBehind[g.id] = true
+		}
+	}
+}
+
 func currentCase(g gInfo) bool {
+	leftMu.Lock()
+	left := leftBehind[g.id]
+	leftMu.Unlock()
+	if left {
+		return false
+	}
 	id, err := strconv.ParseInt(g.id, 10, 64)
 	return err == nil && id > caseBaseline.Load()
 }
